@@ -108,7 +108,9 @@ _c("C03",
    "model on the pinned tree. The model's mstep is compared with typedpy inside Coq on generated histories (all introspected "
    "mutators; positional, keyword, slice, one-shot-iterator, failing-iterator and key-function arguments; `x.f += v` statement "
    "forms; re-read and re-used handles) and on enumerated streams (values Python's == cannot tell from the stored one through "
-   "every entry point, a value lattice over multi-field wrappers, calls on which the base type's own method is not atomic), and the "
+   "every entry point, a value lattice over multi-field wrappers, the same lattice on one instance after events on OTHER "
+   "instances of the class (deepcopy, pickle, clone, trusted construction/assignment/deserialization, rejected operations: Field "
+   "objects are shared), calls on which the base type's own method is not atomic), and the "
    "property's clauses (snapshot unchanged on raise, allowed exception class, struct_ok after success) are evaluated on every "
    "observed step to produce replays.",
    "Trusted: Coq kernel + vm_compute; hand-written Instance.v/Mutate.v/WrapBody.v; the statement transliterator "
